@@ -91,17 +91,23 @@ Theorem C16_order_pinned_refuted :
 Proof. exact custom_lt_pinned_synthetic_refuted. Qed.
 Print Assumptions C16_order_pinned_refuted.
 
-(* Non-vacuity: a two-token macro body used glued to a bracket. *)
+(* Non-vacuity: a two-token macro body used glued to a bracket and, two spaces later, not glued. *)
 Example C16_nonvacuous :
   let mt := [mkMacro (s2l "SEL") 0 [mkTT KEYWORD 13 (s2l "@e"); mkTT PAREN_SQUARE 15 (s2l "[type=pig]")]] in
   mt_ok mt /\
-  exists st toks,
-    parse_st mt false true false 1 1 (s2l "kill SEL[tag=a] SEL  [x];") = Ok st /\ s_ev st = false /\
-    finish mt true false st = Ok [toks] /\
-    map t_glued toks = [false; false; true; true; false; true; false].
+  match parse_st mt false true false 1 1 (s2l "kill SEL[tag=a] SEL  [x];") with
+  | Ok st =>
+      match finish mt true false st with
+      | Ok [toks] =>
+          negb (s_ev st) &&
+          (if list_eq_dec bool_dec (map t_glued toks) [false; false; true; true; false; true; false] then true else false)
+      | _ => false
+      end
+  | Err _ => false
+  end = true.
 Proof.
   split.
   - intros k m H Ha. cbn [lookup_macro m_key] in H. destruct (str_eqb _ k); [|discriminate]. injection H as <-.
     unfold macro_ok; cbn. split; [discriminate|]. split; [repeat constructor; right; reflexivity|reflexivity].
-  - eexists. eexists. vm_compute. repeat split.
+  - vm_compute. reflexivity.
 Qed.
